@@ -190,7 +190,18 @@ class Cache:
 
             # For union, visible columns must match (validated in verb function)
             # Hidden columns: are removed (we don't keep names for them and it is unlike they match in uuid)
-            res.cols = {uid: col for uid, col in self.cols.items() if uid in self.uuid_to_name}
+            # A column of the union has the common type of the two stacked columns.
+            res.cols = {
+                uid: Col(
+                    col.name,
+                    node,
+                    uid,
+                    types.lca_type([col.dtype(), right_cache.cols[right_cache.name_to_uuid[name]].dtype()]),
+                    Ftype.ELEMENT_WISE,
+                )
+                for uid, col in self.cols.items()
+                if (name := self.uuid_to_name.get(uid)) is not None
+            }
             # Visible columns should match, so we keep left table's name_to_uuid
             # (right table's visible columns are the same by validation)
             res.name_to_uuid = self.name_to_uuid.copy()
